@@ -4,7 +4,7 @@
     32-bit random values; UDP IPv4 uses the fixed block 41821+t and is isolated by the held local port only;
     cross-protocol pairs (e.g. ICMP vs UDP both reading ICMP errors) are covered by the correspondence, not proved. *)
 From Coq Require Import List ZArith Bool.
-From TR Require Import Lib.Bytes Wire.Decode Drv.Drivers Spec.C01 Pol.Alloc Proofs.AllocProofs Proofs.DrvProofs Proofs.IsoProofs Eng.Engine Eng.Timed Proofs.EngComplete Proofs.EngIso.
+From TR Require Import Lib.Bytes Wire.Decode Drv.Drivers Spec.C01 Pol.Alloc Proofs.AllocProofs Proofs.DrvProofs Proofs.IsoProofs Eng.Engine Eng.Timed Proofs.EngComplete Proofs.EngIso Generated.GoAlloc Proofs.GoTieAlloc.
 Import ListNotations.
 Open Scope Z_scope.
 
@@ -72,4 +72,15 @@ Theorem C11_shared_wire_isolation p own foreign shared r :
         exists q, In q (tr_accepted r) /\ matches e q).
 Proof. exact (@shared_wire_isolation p own foreign shared r). Qed.
 Print Assumptions C11_shared_wire_isolation.
+
+(** tie kind A, regenerated on every run by tools/goextract/exprs.go: AllocPacketID as it stands in the source (uint32 counter arithmetic, uint16 truncation) is the model's [alloc]: returned base and counter left behind *)
+Theorem C11_AllocPacketID_tied c m : 0 <= m < 256 ->
+  go_packets_AllocPacketID m c = snd (alloc c m) /\ (c + m) mod M32 = fst (alloc c m).
+Proof. exact (@go_AllocPacketID_is_alloc c m). Qed.
+Print Assumptions C11_AllocPacketID_tied.
+
+(** nextEchoID likewise *)
+Theorem C11_nextEchoID_tied c : echo_ids c 1 = [go_icmp_nextEchoID c].
+Proof. exact (@go_nextEchoID_is_echo_ids c). Qed.
+Print Assumptions C11_nextEchoID_tied.
 
